@@ -9,6 +9,7 @@
    same on the model: one user step, then all internal steps to quiescence. *)
 From Coq Require Import List ZArith Bool Arith.
 From GZ Require Export Lib.CheckLib C10.Model.
+From GZgen Require Export C10Consts.
 Import ListNotations.
 Local Open Scope nat_scope.
 
@@ -48,9 +49,12 @@ Definition is_void (a : api) : bool :=
 Definition is_auto (a : api) : bool :=
   match a with AFinish | AFinishVoid => true | _ => false end.
 
+(* WithWorkers clamps to minWorkers; the output protocol is read from today's source
+   (coq/gen/C10Consts.v; GenProofs.v checks that the three shape flags are consistent) *)
+Definition eff_workers (c : case) : nat := Nat.max gen_minWorkers (cworkers c).
 Definition cfg_of (c : case) : config :=
-  mkCfg VFixed (is_foreach (capi c)) (Nat.max 1 (cworkers c)) (cgen c)
-        (lookup_script (cmaps c)) (cred c).
+  mkCfg VFixed (is_foreach (capi c)) (eff_workers c) (cgen c)
+        (lookup_script (cmaps c)) (cred c) gen_writeSelectsDone.
 
 (* ---- quiescence ---- *)
 Definition at_gate (p : pc) : bool := match p with Gate _ => true | _ => false end.
@@ -285,7 +289,7 @@ Definition last_is_recvall (l : list uact) : bool :=
 Definition prop_ok (c : case) : bool :=
   let a := capi c in
   let fe := is_foreach a in
-  let w := Nat.max 1 (cworkers c) in
+  let w := eff_workers c in
   let items := sends (cgen c) in
   let scripts := map (fun x => lookup_script (cmaps c) x) items in
   let all_user := cgen c :: cred c :: scripts in
@@ -310,7 +314,7 @@ Definition prop_ok (c : case) : bool :=
         | OErr e => negb fe && existsb (err_eqb e) allowed_cancels
         | OPanic (PUser k) => memz k allowed_panics
         | OPanic PMulti => 2 <=? length rw
-        | OPanic PClosed => negb (length rw =? 0) && negb nofault
+        | OPanic PClosed => negb (length rw =? 0) && negb nofault && gen_finishClosesOutput
         end)
        (* nothing cancelled, ended or panicked: exactly-once and the reducer's single output *)
        && (if nofault && negb (trivial_case c) then
